@@ -7,8 +7,20 @@ PROPS = {
         'modules': ['contracts.c01', 'contracts.c01_lemmas', 'contracts.c01_dec'],
         'level': 'proof',
         'trusted_base': COMMON_TB,
-        'assumptions': [],
-        'level_text': 'wip', 'level_note': 'wip',
+        'assumptions': [
+            'struct.pack/unpack of fixed-width integers = abstract little-endian codec le_n/unle_n with inverse axioms (assumed built-in contract, conformance-tested)',
+            'io.BytesIO modelled as (data, pos) with read/write/tell/seek/getvalue contracts; writes only at end of buffer',
+            'script/witness-item lengths and vector counts below 2^64 (serialiser) and length fields <= MAX_SIZE 0x02000000 (deserialiser; larger fields raise SerializationError by design)',
+            'NOT PROVED (stated, not assumed by any proved unit): composition of the decoder contracts at CTransaction.stream_deserialize / CBlock.stream_deserialize level (round trip and truncation of whole transactions and blocks); contracts/c01_wip.py holds the undecided attempt',
+        ],
+        'level_text': 'Exact-bytes theorem (T1) and marker/flag-iff-witness (T2) proved for every serialiser up to '
+                      'CTransaction, CBlock and Serializable.serialize, for all field values in wire range and all '
+                      'vector lengths (loop invariants, no bound). Decoders: round trip, truncation-error-iff-strict-prefix '
+                      'and extra-data error proved for CompactSize, byte strings, outpoints, inputs, outputs, headers, '
+                      'witness stacks and the three vector decoders (ghost-valued prefix contracts, split lemmas by '
+                      'explicit induction). The transaction/block-level decoder composition is not proved.',
+        'level_note': 'trusted: pyvc, z3/cvc5, struct and BytesIO contracts, spec functions in specs/wire.py',
+        'design_ref': 'DESIGN.md 5 C01',
         'explanation': 'wire format contracts',
     },
     'C17': {
